@@ -118,6 +118,15 @@ func (c *Enum) Len() int {
 	return len(c.items)
 }
 
+// JsonTypes returns the JSON types of the values.
+func (c *Enum) JsonTypes() []jjson.Type {
+	tt := make([]jjson.Type, 0, len(c.items))
+	for _, i := range c.items {
+		tt = append(tt, i.jsonType)
+	}
+	return tt
+}
+
 func (c *Enum) SetComment(idx int, comment string) {
 	c.items[idx].comment = comment
 }
